@@ -261,7 +261,9 @@ func runConcurrent(t *verifsim.Tape, cfg engine.Config) *engine.Outcome {
 					o.Violate("leak_invocations", "leak_invocations", "%s: service invoked %d times for this request", where, len(x.invoked))
 					continue
 				}
-				if diff := gen.Diff(expectedPayload(d, x.m, x.payload), x.invoked[0].got, ""); diff != "" {
+				if diff := gen.Diff(expectedPayload(d, x.m, x.payload), x.invoked[0].got, ""); diff != "" && diffClassP(d, x.m, diff, x.payload) == "query-map-key-contains-closing-bracket" {
+					o.Features["known_defect_class_in_the_way"]++ // sequential defect recorded under C02, not a leak
+				} else if diff != "" {
 					o.Violate("leak_payload", "leak_payload", "%s: the service saw a payload that is not this request's: %s\n  sent     %s\n  received %s", where, diff, gen.Show(x.payload), gen.Show(x.invoked[0].got))
 				}
 				if x.m.Result != nil {
